@@ -156,19 +156,27 @@ theorem broadcast_shape_sound (x y c : Shape) (h : bcastShape x y = some c) (σ 
     obtain ⟨t, ht⟩ := s2 hu
     exact ⟨t.reverse, by simp only [broadcast, ht, Option.map_some]⟩
 
-/-- **Strategy 1** (`shape` is a constant `e`).  Under the hypothesis the proof forces — the Expand
-target is not of higher rank than both operands — `BinaryOp(Expand(x, e), y)` and `BinaryOp(x, y)`
-broadcast to the same shape for *every* binding of the symbols in `x`, `y` (dims 0 and 1 included); the
-statement is an equation of `Option`s, so the two models also reject exactly the same inputs. -/
-theorem expand_removable_s1_partial (e : List Int) (x y : Shape) (h : strategy1 e x y = none)
-    (hrank : e.length ≤ max x.length y.length)
+/-- **Strategy 1** (`shape` is a constant `e`; with the rank guard of commit 48b48d2).  Whenever the check
+succeeds, `BinaryOp(Expand(x, e), y)` and `BinaryOp(x, y)` broadcast to the same shape for *every* binding
+of the symbols in `x`, `y` (dims 0 and 1 included); the statement is an equation of `Option`s, so the two
+models also reject exactly the same inputs.  (The rank hypothesis the proof of the earlier `_partial`
+version had forced is now established by the check itself.) -/
+theorem expand_removable_s1_sound (e : List Int) (x y : Shape) (h : strategy1 e x y = .ok)
     (σ : String → Nat) (lx ly : List Int) (hx : Admits σ x lx) (hy : Admits σ y ly) :
     (broadcast lx e).bind (fun le => broadcast le ly) = broadcast lx ly := by
-  simp only [strategy1, Option.map_eq_none_iff] at h
+  simp only [strategy1] at h
+  by_cases hr : e.length > max x.length y.length
+  · rw [if_pos hr] at h; cases h
+  rw [if_neg hr] at h
+  have hrank : e.length ≤ max x.length y.length := by omega
+  have h' : s1Rev e.reverse x.reverse y.reverse 0 = none := by
+    cases hs : s1Rev e.reverse x.reverse y.reverse 0 with
+    | none => rfl
+    | some k => rw [hs] at h; cases h
   have hlx := admits_length hx
   have hly := admits_length hy
   have core := s1_core (σ := σ) (max lx.length e.length) (max lx.length ly.length) e.reverse x.reverse y.reverse
-    lx.reverse ly.reverse 0 (by simp only [List.length_reverse]) (by omega) h (admits_reverse hx) (admits_reverse hy)
+    lx.reverse ly.reverse 0 (by simp only [List.length_reverse]) (by omega) h' (admits_reverse hx) (admits_reverse hy)
   simp only [broadcast]
   cases hb : bcastN (max lx.length e.length) lx.reverse e.reverse with
   | none =>
@@ -184,16 +192,15 @@ theorem expand_removable_s1_partial (e : List Int) (x y : Shape) (h : strategy1 
     simp only [Option.map_some, Option.bind_some, List.reverse_reverse, hmax, core]
 
 /-- The accept/reject reading of strategy 1. -/
-theorem accepts_same_inputs_s1 (e : List Int) (x y : Shape) (h : strategy1 e x y = none)
-    (hrank : e.length ≤ max x.length y.length)
+theorem accepts_same_inputs_s1 (e : List Int) (x y : Shape) (h : strategy1 e x y = .ok)
     (σ : String → Nat) (lx ly : List Int) (hx : Admits σ x lx) (hy : Admits σ y ly) :
     ((broadcast lx e).bind (fun le => broadcast le ly)).isSome = (broadcast lx ly).isSome := by
-  rw [expand_removable_s1_partial e x y h hrank σ lx ly hx hy]
+  rw [expand_removable_s1_sound e x y h σ lx ly hx hy]
 
-/-- The rank hypothesis is necessary: `Add(Expand(x:[3], [1,1,3]), y:[3])` has shape `[1,1,3]`, the
-rewritten `Add(x, y)` has shape `[3]` (replayed on the real rule: finding D24). -/
-theorem expand_removable_s1_full_refuted :
-    ¬ (∀ (e : List Int) (x y : Shape), strategy1 e x y = none →
+/-- Regression witness (finding C09-N2 / C05-N3a, fixed by 48b48d2): without the rank guard
+`Add(Expand(x:[3], [1,1,3]), y:[3])` of shape `[1,1,3]` was rewritten to `Add(x, y)` of shape `[3]`. -/
+theorem expand_removable_s1_prefix_refuted :
+    ¬ (∀ (e : List Int) (x y : Shape), strategy1Before48b48d2 e x y = none →
         ∀ (σ : String → Nat) (lx ly : List Int), Admits σ x lx → Admits σ y ly →
           (broadcast lx e).bind (fun le => broadcast le ly) = broadcast lx ly) := by
   intro h
@@ -201,18 +208,25 @@ theorem expand_removable_s1_full_refuted :
     (by simp only [Admits, Dim.Admits, and_self]) (by simp only [Admits, Dim.Admits, and_self])
   revert this; decide
 
-example : strategy1 [2, 3] [.known 1, .known 3] [.known 2, .sym "N"] = none := by decide
+example : strategy1 [2, 3] [.known 1, .known 3] [.known 2, .sym "N"] = .ok := by decide
+example : strategy1 [1, 1, 3] [.known 3] [.known 3] = .rankFail := by decide
 
-/-- **Strategy 2** (`_check_dims_sufficient` on the Expand output annotation `E`).  `lE` is what the
-original `Expand(x, le)` produced at run time and `E` is truthful for it.  Hypotheses forced by the proof:
-`E` has no unnamed dim (Python's `SymbolicDim(None) == SymbolicDim(None)` is `True`) and `E` is not of
-higher rank than both operands. -/
-theorem dims_sufficient_sound_partial (E x y : Shape) (h : dimsSufficient E x y = none)
-    (hunk : hasUnknown E = false) (hrank : E.length ≤ max x.length y.length)
+/-- **Strategy 2** (`_check_dims_sufficient` on the Expand output annotation `E`; with the rank guard of
+48b48d2 and `_same_dim` of 9477c4c).  `lE` is what the original `Expand(x, le)` produced at run time and `E`
+is truthful for it.  Whenever the check succeeds, removing the Expand leaves the broadcast result unchanged,
+for every binding — no side hypothesis left. -/
+theorem dims_sufficient_sound (E x y : Shape) (h : dimsSufficient E x y = .ok)
     (σ : String → Nat) (lx le lE ly : List Int)
     (hexp : broadcast lx le = some lE) (hE : Admits σ E lE) (hx : Admits σ x lx) (hy : Admits σ y ly) :
     broadcast lE ly = broadcast lx ly := by
-  simp only [dimsSufficient, Option.map_eq_none_iff] at h
+  simp only [dimsSufficient] at h
+  by_cases hr : E.length > max x.length y.length
+  · rw [if_pos hr] at h; cases h
+  rw [if_neg hr] at h
+  have h' : suffRev E.reverse x.reverse y.reverse 0 = none := by
+    cases hs : suffRev E.reverse x.reverse y.reverse 0 with
+    | none => rfl
+    | some k => rw [hs] at h; cases h
   have hlx := admits_length hx
   have hly := admits_length hy
   have hlE := admits_length hE
@@ -221,28 +235,29 @@ theorem dims_sufficient_sound_partial (E x y : Shape) (h : dimsSufficient E x y 
   have htl := bcastN_length _ _ _ _ ht
   have core := s2_core (σ := σ) (max lx.length le.length) (max lx.length ly.length) E.reverse x.reverse y.reverse
     lx.reverse le.reverse t ly.reverse 0 (by simp only [List.length_reverse])
-    (by simp only [List.length_reverse] at hlE; omega) ht h
-    (by rw [hasUnknown_reverse]; exact hunk) (by simpa only [List.reverse_reverse] using admits_reverse hE)
+    (by simp only [List.length_reverse] at hlE; omega) ht h'
+    (by simpa only [List.reverse_reverse] using admits_reverse hE)
     (admits_reverse hx) (admits_reverse hy)
   have hmax : max t.reverse.length ly.length = max lx.length ly.length := by
     simp only [List.length_reverse] at hlE ⊢; omega
   simp only [broadcast, List.reverse_reverse, hmax, core]
 
-/-- Unnamed dims refute the unconditioned statement: `x:[?]` (really 1), target `[5]`, Expand output
-annotated `[?]`, `y:[1]` — with Expand `[5]`, without `[1]` (replayed on the real rule: finding D23). -/
-theorem dims_sufficient_unknown_refuted :
-    ¬ (∀ (E x y : Shape), dimsSufficient E x y = none → E.length ≤ max x.length y.length →
+/-- Regression witness (finding C09-N1, fixed by 9477c4c): with Python `==` two unnamed dims compared equal —
+`x:[?]` (really 1), target `[5]`, Expand output annotated `[?]`, `y:[1]`: with Expand `[5]`, without `[1]`. -/
+theorem dims_sufficient_unknown_prefix_refuted :
+    ¬ (∀ (E x y : Shape), dimsSufficientBefore9477c4c E x y = none →
         ∀ (σ : String → Nat) (lx le lE ly : List Int), broadcast lx le = some lE →
           Admits σ E lE → Admits σ x lx → Admits σ y ly → broadcast lE ly = broadcast lx ly) := by
   intro h
-  have := h [.unknown] [.unknown] [.known 1] (by decide) (by decide) (fun _ => 0) [1] [5] [5] [1] (by decide)
+  have := h [.unknown] [.unknown] [.known 1] (by decide) (fun _ => 0) [1] [5] [5] [1] (by decide)
     (by simp only [Admits, Dim.Admits, and_self]) (by simp only [Admits, Dim.Admits, and_self])
     (by simp only [Admits, Dim.Admits, and_self])
   revert this; decide
 
-/-- … and so does a rank-extending Expand whose extra leading dims are annotated `1`. -/
-theorem dims_sufficient_rank_refuted :
-    ¬ (∀ (E x y : Shape), dimsSufficient E x y = none → hasUnknown E = false →
+/-- Regression witness (finding C09-N2, strategy 2, fixed by 48b48d2): a rank-extending Expand whose extra
+leading dims are annotated `1`. -/
+theorem dims_sufficient_rank_prefix_refuted :
+    ¬ (∀ (E x y : Shape), dimsSufficientBefore E x y = none → hasUnknown E = false →
         ∀ (σ : String → Nat) (lx le lE ly : List Int), broadcast lx le = some lE →
           Admits σ E lE → Admits σ x lx → Admits σ y ly → broadcast lE ly = broadcast lx ly) := by
   intro h
@@ -251,13 +266,15 @@ theorem dims_sufficient_rank_refuted :
     (by simp only [Admits, Dim.Admits]; decide)
   revert this; decide
 
-example : dimsSufficient [.sym "B", .sym "N"] [.known 1, .sym "N"] [.sym "B", .known 1] = none := by decide
+example : dimsSufficient [.sym "B", .sym "N"] [.known 1, .sym "N"] [.sym "B", .known 1] = .ok := by decide
+example : dimsSufficient [.unknown] [.unknown] [.known 1] = .dimFail 0 := by decide
+example : dimsSufficient [.known 1, .sym "N"] [.sym "N"] [.sym "N"] = .rankFail := by decide
 
-/-- **Strategy 3** (binary-op output annotation equals the symbolic broadcast `c` of `x` and `y`).  If the
-annotation is truthful for what the original model computed (`lout`) and contains no unnamed dim, the
-rewritten `BinaryOp(x, y)` is defined and has exactly that shape, for every binding. -/
-theorem expand_removable_s3_partial (x y out : Shape) (h : strategy3 x y out = true)
-    (hunk : hasUnknown out = false)
+/-- **Strategy 3** (binary-op output annotation `_same_dim`-equal to the symbolic broadcast of `x` and `y`).
+If the annotation is truthful for what the original model computed (`lout`), the rewritten `BinaryOp(x, y)` is
+defined and has exactly that shape, for every binding — the "no unnamed dim" hypothesis of the earlier
+`_partial` version is now a consequence of the check. -/
+theorem expand_removable_s3_sound (x y out : Shape) (h : strategy3 x y out = true)
     (σ : String → Nat) (lx ly lout : List Int)
     (hout : Admits σ out lout) (hx : Admits σ x lx) (hy : Admits σ y ly) :
     broadcast lx ly = some lout := by
@@ -265,15 +282,16 @@ theorem expand_removable_s3_partial (x y out : Shape) (h : strategy3 x y out = t
   cases hc : bcastShape x y with
   | none => simp only [hc] at h; cases h
   | some c =>
-    simp only [hc, decide_eq_true_eq] at h
-    subst h
+    simp only [hc, Bool.and_eq_true, decide_eq_true_eq] at h
+    obtain ⟨rfl, hunk⟩ := zipWith_semEq_all c out h.1 h.2
     obtain ⟨s1, s2⟩ := broadcast_shape_sound x y c hc σ lx ly hx hy
     obtain ⟨lo, hlo⟩ := s2 hunk
     rw [hlo, admits_det hunk (s1 lo hlo) hout]
 
-/-- Unnamed dims refute it: `x:[?]`, `y:[1]`, output annotated `[?]`; the original produced `[5]`. -/
-theorem expand_removable_s3_unknown_refuted :
-    ¬ (∀ (x y out : Shape), strategy3 x y out = true →
+/-- Regression witness (finding C09-N1, strategy 3, fixed by 9477c4c): `x:[?]`, `y:[1]`, output annotated
+`[?]`; the original produced `[5]`. -/
+theorem expand_removable_s3_unknown_prefix_refuted :
+    ¬ (∀ (x y out : Shape), strategy3Before9477c4c x y out = true →
         ∀ (σ : String → Nat) (lx ly lout : List Int), Admits σ out lout → Admits σ x lx → Admits σ y ly →
           broadcast lx ly = some lout) := by
   intro h
@@ -283,6 +301,47 @@ theorem expand_removable_s3_unknown_refuted :
   revert this; decide
 
 example : strategy3 [.sym "N", .known 1] [.known 1, .sym "M"] [.sym "N", .sym "M"] = true := by decide
+example : strategy3 [.unknown] [.known 1] [.unknown] = false := by decide
+
+/-- **All strategies together.**  Whenever `_check_expand_removable` answers "removable", the rewritten
+binary op produces, for every binding, the shape the original produced (`lout`), given that the shape
+annotations the decision read are truthful for the original run: `le` is the run-time Expand target
+(equal to the constant when there is one), `lE` the Expand result, `lout` the original result. -/
+theorem expand_removable_sound (x y : Shape) (const : Option (List Int)) (eOut bOut : Option Shape)
+    (h : (expandRemovable (some x) (some y) const eOut bOut).removable = true)
+    (σ : String → Nat) (lx ly le lE lout : List Int) (hx : Admits σ x lx) (hy : Admits σ y ly)
+    (hconst : ∀ c, const = some c → le = c)
+    (hexp : broadcast lx le = some lE) (hres : broadcast lE ly = some lout)
+    (hE : ∀ E, const = none → eOut = some E → Admits σ E lE)
+    (hO : ∀ O, const = none → eOut = none → bOut = some O → Admits σ O lout) :
+    broadcast lx ly = some lout := by
+  simp only [expandRemovable] at h
+  cases const with
+  | some c =>
+    have := hconst c rfl; subst this
+    cases h1 : strategy1 le x y with
+    | ok =>
+      have e := expand_removable_s1_sound le x y h1 σ lx ly hx hy
+      rw [hexp] at e; simp only [Option.bind_some] at e; rw [← e, hres]
+    | rankFail => simp only [h1, ExpandVerdict.removable] at h; cases h
+    | dimFail i => simp only [h1, ExpandVerdict.removable] at h; cases h
+  | none =>
+    cases eOut with
+    | some E =>
+      cases h2 : dimsSufficient E x y with
+      | ok => rw [← dims_sufficient_sound E x y h2 σ lx le lE ly hexp (hE E rfl rfl) hx hy, hres]
+      | rankFail => simp only [h2, ExpandVerdict.removable] at h; cases h
+      | dimFail i => simp only [h2, ExpandVerdict.removable] at h; cases h
+    | none =>
+      cases bOut with
+      | some O =>
+        by_cases h3 : strategy3 x y O = true
+        · exact expand_removable_s3_sound x y O h3 σ lx ly lout (hO O rfl rfl rfl) hx hy
+        · simp only [h3, ExpandVerdict.removable] at h; cases h
+      | none => simp only [ExpandVerdict.removable] at h; cases h
+
+example : (expandRemovable (some [.sym "N", .known 1]) (some [.sym "N", .sym "M"]) none
+    (some [.sym "N", .sym "M"]) none).removable = true := by decide
 
 /-! ## Fold-time identity tests (`reshape`, `expand` partial evaluators; `ExpandIdentity` rule) -/
 
